@@ -113,11 +113,13 @@ func HLoad() {
 type failWriter struct {
 	failAt int
 	n      int
+	failed bool
 	buf    bytes.Buffer
 }
 
 func (w *failWriter) Write(p []byte) (int, error) {
 	if w.n == w.failAt {
+		w.failed = true
 		return 0, errInjected
 	}
 	w.n++
@@ -143,7 +145,9 @@ func HStoreFail() {
 		la.AssembleValue().AssignLink(cidlink.Link{}) // undefined CID: refused by the DAG codecs, links refused by cbor/json
 	} else {
 		la.AssembleValue().AssignString(nd.String("s", 2))
-		w.failAt = nd.Choose("failat", 4)
+		if w.failAt = nd.Choose("failat", 5); w.failAt == 4 {
+			w.failAt = -1 // a healthy writer
+		}
 	}
 	la.AssembleValue().AssignBool(true)
 	la.Finish()
@@ -153,7 +157,7 @@ func HStoreFail() {
 			n = basicnode.NewInt(1) // raw encodes bytes only
 		} else {
 			n = basicnode.NewBytes(nd.Bytes("b", 2))
-			w.failAt = 0
+			w.failAt = nd.Choose("rawfail", 2) - 1
 		}
 	}
 	ls := cidlink.DefaultLinkSystem()
@@ -162,6 +166,8 @@ func HStoreFail() {
 	}
 	var err error
 	nd.NoPanic("store", func() { _, err = ls.Store(linking.LinkContext{}, lp, n) })
+	nd.Assert(!(w.failed && committed), "a store during which a storage write failed never commits a block")
+	nd.Assert(!(w.failed && err == nil), "a storage write failure surfaces as an error from Store")
 	if err != nil {
 		nd.Reach("failed")
 		nd.Assert(!committed, "a store whose encoding or writing failed never commits")
